@@ -73,12 +73,14 @@ Section H.
     rewrite (Hall f (or_introl eq_refl)). apply IH. intros f' Hin. apply Hall. right. exact Hin.
   Qed.
 
-  Lemma farm_roundtrip s : invb true h s = true -> import true true h (export s) = Some s.
+  Lemma farm_roundtrip s : invb true h s = true -> import true true true h (export s) = Some s.
   Proof.
     intros Hinv. unfold invb in Hinv. split_andb Hinv.
     rename Hinv into Hps, Hi5 into Hpok, Hi4 into Hfs, Hi3 into Hfok, Hi2 into Hq, Hi1 into Hfee, Hi0 into Hfv, Hi into Hseq.
-    assert (Hval : validate true (export s) = true).
-    { unfold validate, export. simpl. rewrite Hfee, andb_true_r. apply andb_true_iff. split; [apply andb_true_iff; split|].
+    assert (Hpv : params_valid (prm s) = true) by exact Hfv.
+    assert (Hval : validate true true (export s) = true).
+    { unfold validate, export. simpl. rewrite Hfee, Hpv. rewrite !andb_true_r.
+      apply andb_true_iff. split; [apply andb_true_iff; split; [apply andb_true_iff; split|]|].
       - rewrite forallb_forall. intros pr Hin. apply in_map_iff in Hin. destruct Hin as (e & <- & Hin).
         rewrite forallb_forall in Hpok. specialize (Hpok e Hin). unfold pentry_ok in Hpok. split_andb Hpok.
         unfold pool_ok. simpl. unfold pool_fields_ok in Hi1. rewrite Hi1. simpl.
@@ -89,7 +91,17 @@ Section H.
         apply in_map_iff in Hpr. destruct Hpr as (e & <- & Hin). simpl.
         rewrite forallb_forall in Hpok. specialize (Hpok e Hin). unfold pentry_ok in Hpok. split_andb Hpok. lia.
       - rewrite forallb_forall. intros f Hin. apply in_map_iff in Hin. destruct Hin as (e & <- & Hin).
-        rewrite forallb_forall in Hfok. specialize (Hfok e Hin). split_andb Hfok. exact Hi. }
+        rewrite forallb_forall in Hfok. specialize (Hfok e Hin). split_andb Hfok. exact Hi.
+      - (* every farmer's pool is exported *)
+        rewrite forallb_forall. intros f Hin. apply in_map_iff in Hin. destruct Hin as (e & <- & Hin).
+        rewrite forallb_forall in Hfok. specialize (Hfok e Hin). split_andb Hfok.
+        apply existsb_exists. exists (f_pool (snd e)). split; [|apply Z.eqb_refl].
+        rewrite map_map. simpl.
+        assert (Hk : In (f_pool (snd e)) (map fst (pools s))).
+        { unfold has in Hi0. destruct (get (f_pool (snd e)) (pools s)) as [v|] eqn:E; [|discriminate].
+          apply get_In in E. apply (in_map fst _ (f_pool (snd e), v)). exact E. }
+        apply in_map_iff in Hk. destruct Hk as (pe & Hpe & Hpin). apply in_map_iff. exists pe. split; [|exact Hpin].
+        rewrite forallb_forall in Hpok. specialize (Hpok pe Hpin). unfold pentry_ok in Hpok. split_andb Hpok. lia. }
     unfold import. rewrite Hval. simpl.
     change (map (fun e => (fst (snd e), map snd (snd (snd e)))) (pools s)) with (map proj (pools s)).
     rewrite imp_pool_fold.
@@ -99,7 +111,7 @@ Section H.
     - change (fold_left (fun m f => oins lt2 (f_addr f, f_pool f) f m) (map snd (farmers s)) [])
         with (okeyed lt2 (fun f => (f_addr f, f_pool f)) (map snd (farmers s))).
       rewrite (okeyed_sorted lt2 lt2_irrefl lt2_asym (fun f => (f_addr f, f_pool f)) (farmers s)).
-      + rewrite Hfv.
+      + rewrite Hpv.
         assert (Hq' : queue s = queue_at h (pools s)) by (apply Prelude.eqb_true_iff; exact Hq).
         rewrite <- Hq'. destruct s; reflexivity.
       + apply (sortedb_sorted lt2 lt2_trans). exact Hfs.
@@ -110,19 +122,19 @@ Section H.
   Qed.
 End H.
 
-Lemma farm_export_validates_lemma h s : invb true h s = true -> validate true (export s) = true.
+Lemma farm_export_validates_lemma h s : invb true h s = true -> validate true true (export s) = true.
 Proof.
   intros Hinv. pose proof (farm_roundtrip h s Hinv) as Hr. unfold import in Hr.
-  destruct (validate true (export s)); [reflexivity|discriminate].
+  destruct (validate true true (export s)); [reflexivity|discriminate].
 Qed.
 
 Lemma farm_export_fixpoint_lemma h s :
-  invb true h s = true -> exists s', import true true h (export s) = Some s' /\ export s' = export s.
+  invb true h s = true -> exists s', import true true true h (export s) = Some s' /\ export s' = export s.
 Proof. intros Hinv. exists s. split; [apply farm_roundtrip; exact Hinv|reflexivity]. Qed.
 
 Lemma farm_queries_preserved_lemma h s :
   invb true h s = true ->
-  exists s', import true true h (export s) = Some s' /\ queries s' = queries s /\ queue s' = queue_at h (pools s').
+  exists s', import true true true h (export s) = Some s' /\ queries s' = queries s /\ queue s' = queue_at h (pools s').
 Proof.
   intros Hinv. exists s. split; [apply farm_roundtrip; exact Hinv|split; [reflexivity|]].
   unfold invb in Hinv. split_andb Hinv. apply Prelude.eqb_true_iff. exact Hi2.
@@ -144,30 +156,30 @@ Definition wit_q : state :=
           [((1, 1), mkFarmer 1 1 50 [])] [((5, 1), tt)].
 
 Lemma farm_export_validates_refuted_lemma :
-  (exists h s, invb false h s = true /\ validate false (export s) = false)
-  /\ (exists h s, invb true h s = true /\ validate false (export s) = false).
+  (exists h s, invb false h s = true /\ validate false false (export s) = false)
+  /\ (exists h s, invb true h s = true /\ validate false false (export s) = false).
 Proof.
   split; [exists 3, wit_zero|exists 4, wit_rps]; split; vm_compute; reflexivity.
 Qed.
 
 Lemma farm_queue_rebuilt_refuted_lemma :
-  exists h s s', invb true h s = true /\ import true false h (export s) = Some s'
+  exists h s s', invb true h s = true /\ import true false false h (export s) = Some s'
                  /\ queue s' <> queue_at h (pools s').
 Proof. exists 5, wit_q, (mkState wit_prm 1 (pools wit_q) (farmers wit_q) []). repeat split; vm_compute; try reflexivity. discriminate. Qed.
 
-(** ValidateGenesis does not check that a farmer's pool is in the genesis; InitGenesis panics *)
-Lemma farm_import_total_refuted_lemma : exists h g, validate true g = true /\ import true true h g = None.
+(** the code as it was: ValidateGenesis did not check that a farmer's pool is in the genesis; InitGenesis panics *)
+Lemma farm_import_total_refuted_lemma : exists h g, validate true false g = true /\ import true true false h g = None.
 Proof. exists 2, (mkGenesis wit_prm [] [mkFarmer 1 0 5 []] 0). split; vm_compute; reflexivity. Qed.
 
-Lemma farm_import_total_partial_lemma h g :
-  validate true g = true ->
-  (forall f, In f (g_farmers g) -> In (f_pool f) (map (fun pr => p_id (fst pr)) (g_pools g))) ->
-  fee_valid (g_prm g) = true ->
-  import true true h g <> None.
+(** the repaired validation: every validated genesis imports *)
+Lemma farm_import_total_lemma h g : validate true true g = true -> import true true true h g <> None.
 Proof.
-  intros Hv Hf Hfee. unfold import. rewrite Hv. simpl. rewrite imp_pool_fold.
-  rewrite imp_farmers_ok; [rewrite Hfee; discriminate|].
-  intros f Hin. specialize (Hf f Hin).
+  intros Hv. unfold import. rewrite Hv. simpl. rewrite imp_pool_fold.
+  unfold validate in Hv. apply andb_true_iff in Hv. destruct Hv as [_ Hv]. cbv iota in Hv.
+  apply andb_true_iff in Hv. destruct Hv as [Hf Hp].
+  rewrite imp_farmers_ok; [rewrite Hp; discriminate|].
+  intros f Hin. rewrite forallb_forall in Hf. specialize (Hf f Hin).
+  apply existsb_exists in Hf. destruct Hf as (x & Hx & Hxe). apply Z.eqb_eq in Hxe. subst x.
   assert (Hgen : forall l ps k, (In k (map (fun pr => p_id (fst pr)) l) \/ has k ps = true) -> has k (fold_left insP l ps) = true).
   { induction l as [|pr l IH]; intros ps k Hk; simpl.
     - destruct Hk as [[]|Hk]. exact Hk.
@@ -177,7 +189,7 @@ Proof.
       + right. unfold has, insP in *. destruct (eq_dec k (p_id (fst pr))) as [->|Hne].
         * rewrite get_oins_same. reflexivity.
         * rewrite get_oins_other by exact Hne. exact Hacc. }
-  apply Hgen. left. exact Hf.
+  apply Hgen. left. exact Hx.
 Qed.
 
 Definition wit_s : state :=
